@@ -336,7 +336,7 @@ def recursion(rep):
 
 def build(rep, tier="quick", seed=0, known=None):
     listed = {k["id"]: k for k in (known or [])}
-    cs = R.contracts() + R.parser_contract()
+    cs = R.contracts() + R.parser_contract() + R.operator_envelope_contracts()
     run_contracts(cs, rep, known=known)
     recursion(rep)
 
@@ -359,8 +359,9 @@ def build(rep, tier="quick", seed=0, known=None):
             "ends in a value or CELEvalError that renders", f, "C04-malformed-macro" if f["malformed"] else None)
     for f in parser_front(rep, tier, seed)[:20]:
         add(f"parse[{f['text']!r}]", "CELParser.parse", "returns a tree or raises CELParseError with a position inside the text", f)
-    rep.trusted |= {"layer 2 (the real celtypes operators and built-in functions raise only their declared envelope) is a bounded check here; "
-                    "int64/uint64/double arithmetic and comparison envelopes are discharged obligations of C01 and C12",
+    rep.trusted |= {"layer 2 (the real implementations raise only their declared envelope) is discharged for every operator on all pairs of scalar kinds "
+                    "(bool, int64, uint64, double, string, bytes, null) by symbolic execution of the real celtypes code, cross-checked on CPython; "
+                    "for lists, maps, timestamps, durations, types and the named functions it is the bounded grid check",
                     "lark's LALR front end raises only UnexpectedToken / UnexpectedCharacters (subclasses of LexError / ParseError)",
                     "repr() of the args tuple of an error does not raise"}
     return {}
